@@ -240,11 +240,14 @@ def state_vars(label):
 
 # ------------------------------------------------------------------ driver
 
-def run_driver(cmd, work, scripts=None, out=None, seed=1, jobs=12, tier="quick", n=None, timeout=1800, gw="rdpgw", extra=None, tag=None):
+def run_driver(cmd, work, scripts=None, out=None, seed=1, jobs=12, tier="quick", n=None, timeout=None, gw="rdpgw", extra=None, tag=None):
     tag = tag or cmd
+    if timeout is None:
+        timeout = 480 if tier == "quick" else 5400
     rep = work.path("report-%s.json" % tag)
     args = [os.path.join(BIN, "vdrv"), cmd, "--work", work.sub("drv-" + tag), "--gw", os.path.join(BIN, gw),
-            "--auth", os.path.join(BIN, "rdpgw-auth"), "--seed", str(seed), "--jobs", str(jobs), "--tier", tier, "--report", rep]
+            "--auth", os.path.join(BIN, "rdpgw-auth"), "--seed", str(seed), "--jobs", str(jobs), "--tier", tier, "--report", rep,
+            "--watchdog", str(max(60, timeout - 30))]
     if scripts:
         args += ["--scripts", scripts]
     if out:
@@ -258,7 +261,7 @@ def run_driver(cmd, work, scripts=None, out=None, seed=1, jobs=12, tier="quick",
     except subprocess.TimeoutExpired:
         raise HarnessError("driver %s timed out after %ds" % (cmd, timeout))
     if not os.path.exists(rep):
-        raise HarnessError("driver %s produced no report (rc=%d):\n%s" % (cmd, p.returncode, p.stdout[-3000:]))
+        raise HarnessError("driver %s produced no report (rc=%d):\n%s" % (cmd, p.returncode, p.stdout[-12000:] if p.returncode == 3 else p.stdout[-3000:]))
     with open(rep) as f:
         r = json.load(f)
     if r.get("errors"):
